@@ -1099,8 +1099,11 @@ func (c *Ctx) ruleChan(rule string) {
 					k := key(rule, c.M.Key(fn), "receive loop on "+chName+" left when "+desc)
 					if closedExit {
 						c.R.Ok(rule, k, c.M.InstrPos(b.Instrs[len(b.Instrs)-1]), "exit of the error-report loop", "taken only when the channel has been closed (no sender is left)")
+					} else if c.defersDrain(fn, ro) && exitReportsServerFatal(s) {
+						c.R.Ok(rule, k, c.M.InstrPos(b.Instrs[len(b.Instrs)-1]), "exit of the error-report loop", "this exit returns a server-fatal error of its own (the session is given up), and the function defers the start of a goroutine that keeps receiving from the channel until it is closed: later reports are not forwarded, but nobody blocks")
 					} else if c.defersDrain(fn, ro) {
-						c.R.Ok(rule, k, c.M.InstrPos(b.Instrs[len(b.Instrs)-1]), "exit of the error-report loop", "the function defers the start of a goroutine that keeps receiving from the channel until it is closed: later reports find a receiver")
+						c.R.Bad(rule, k, c.M.InstrPos(b.Instrs[len(b.Instrs)-1]), "error-report loop stops forwarding while the session goes on",
+							"after this exit the deferred drain takes the reports of the steps that are still running and discards them: those runs never get their terminal message, and their failures are not among the returned errors")
 					} else {
 						c.R.Bad(rule, k, c.M.InstrPos(b.Instrs[len(b.Instrs)-1]), "error-report loop can stop while senders are still running",
 							"after this exit nobody receives from "+chName+" (buffer 3); goroutines counted by the session WaitGroup that report an error later block in their send forever, and RunATPServer's final Wait never returns")
@@ -2395,4 +2398,32 @@ func (c *Ctx) defersDrain(fn *ssa.Function, ro *atpRoles) bool {
 		}
 	}
 	return false
+}
+
+// exitReportsServerFatal: the code reached through this exit builds a ServerError with ServerFatal set before returning.
+func exitReportsServerFatal(from *ssa.BasicBlock) bool {
+	seen := map[*ssa.BasicBlock]bool{}
+	var walk func(b *ssa.BasicBlock) bool
+	walk = func(b *ssa.BasicBlock) bool {
+		if seen[b] {
+			return false
+		}
+		seen[b] = true
+		for _, in := range b.Instrs {
+			if st, ok := in.(*ssa.Store); ok {
+				if fa, ok := st.Addr.(*ssa.FieldAddr); ok && fieldName(fa.X.Type(), fa.Field) == "ServerFatal" {
+					if cst, ok := st.Val.(*ssa.Const); ok && cst.Value != nil && cst.Value.String() == "true" {
+						return true
+					}
+				}
+			}
+		}
+		for _, s := range b.Succs {
+			if walk(s) {
+				return true
+			}
+		}
+		return false
+	}
+	return walk(from)
 }
